@@ -928,7 +928,69 @@ func (lc *layoutCtx) extract(v *opViews, fd *ast.FuncDecl) {
 		lc.walk(fd.Body.List, en, slices(&v.sim, "instr"))
 		lc.decodedUses(fd, v.sim)
 	case strings.Contains(strings.ToLower(name), "verilog"):
+		// `case (current_instruction[..])` followed by a loop that emits the labels `<NAME> : begin`:
+		// the name function of the labels says which kind of operand the template takes the slice for
+		var pending []int
+		labelKind := func(body *ast.BlockStmt) string {
+			for _, st := range body.List {
+				as, ok := st.(*ast.AssignStmt)
+				if !ok || len(as.Rhs) != 1 {
+					continue
+				}
+				var leaves []ast.Expr
+				flattenAdd(as.Rhs[0], &leaves)
+				isLabel, kind := false, ""
+				for _, l := range leaves {
+					if sl, ok := constStr(lc.info, l); ok {
+						if strings.HasPrefix(strings.TrimSpace(sl), ": begin") {
+							isLabel = true
+						}
+						continue
+					}
+					ast.Inspect(l, func(k ast.Node) bool {
+						if call, ok := k.(*ast.CallExpr); ok {
+							if c := core.CalleeOf(lc.info, call); c != nil {
+								switch c.Name() {
+								case "Get_register_name":
+									kind = "register"
+								case "Get_input_name":
+									kind = "input"
+								case "Get_output_name":
+									kind = "output"
+								}
+							}
+						}
+						return true
+					})
+					if kind != "" && !isLabel {
+						// the name comes before the " : begin" literal in the same concatenation
+						continue
+					}
+				}
+				if isLabel {
+					return kind
+				}
+				return "" // the first emitting statement of the loop is not a label
+			}
+			return ""
+		}
 		lc.walk(fd.Body.List, en, func(n ast.Node, en lenv) {
+			var loopBody *ast.BlockStmt
+			switch x := n.(type) {
+			case *ast.ForStmt:
+				loopBody = x.Body
+			case *ast.RangeStmt:
+				loopBody = x.Body
+			}
+			if loopBody != nil {
+				if k := labelKind(loopBody); k != "" {
+					for _, i := range pending {
+						v.hdl[i].uses = append(v.hdl[i].uses, k)
+					}
+				}
+				pending = nil
+				return
+			}
 			inspectShallow(n, func(m ast.Node) bool {
 				be, ok := m.(*ast.BinaryExpr)
 				if !ok || be.Op != token.ADD {
@@ -967,6 +1029,9 @@ func (lc *layoutCtx) extract(v *opViews, fd *ast.FuncDecl) {
 					f.pos = l.Pos()
 					f.src = fd.Name.Name
 					v.hdl = append(v.hdl, f)
+					if strings.HasSuffix(s, "case (current_instruction[") || strings.HasSuffix(s, "case(current_instruction[") {
+						pending = append(pending, len(v.hdl)-1)
+					}
 				}
 				return false
 			})
